@@ -14,6 +14,7 @@ from bs4.dammit import UnicodeDammit, EncodingDetector
 from bs4.builder._htmlparser import HTMLParserTreeBuilder
 from bs4.exceptions import ParserRejectedMarkup
 import common
+import cdcodecs as cd
 
 RULE = ("(H) call hygiene: in every batch empty arguments are omitted (the API's default object is used), passed as None or as a "
         "fresh list by a rule depending on the case; after every call the caller-owned argument lists and the default argument "
@@ -1240,6 +1241,13 @@ def run_cases(ctx, cases, label, detector=True, dammit=True, ctor=True, budget_n
                          [o_strip_bom(case["data"])[0][:8].hex(), o_strip_bom(case["data"])[1]], tag="bom")
             todo.append(("dammit", case, obs))
             cmds.append(cmd_dammit(case, texts))
+            if ctx.build.model_ok and len(case["data"]) <= 30000 and isinstance(obs, dict) and cd.chardet_absent() and \
+                    cd.case_supported(ctx, case["data"], case_names(case, obs["sniffed"]), list(obs["cands"]) +
+                                      ([obs["declared"]] if obs["declared"] else [])):
+                todo.append(("concrete", case, obs))
+                cmds.append(cd.dammit_cmd(case["data"], case["known"], case["user"], case["exclude"], case["override"],
+                                          case["is_html"]))
+                ctx.count("cd_dammit_cases_from_c07_generators")
         if len(case["data"]) > 30000:
             continue                      # long documents: UnicodeDammit only (the model's tables carry the bytes)
         if detector and isinstance(case["data"], bytes):
@@ -1273,6 +1281,9 @@ def run_cases(ctx, cases, label, detector=True, dammit=True, ctor=True, budget_n
         return
     res = ctx.model.run(cmds, chunk=2000)
     for (api, case, obs), mv in zip(todo, res):
+        if api == "concrete":
+            cd.compare_dammit(ctx, dict(case_json(case), api="UnicodeDammit", concrete=True), obs, mv)
+            continue
         if api == "dammit":
             m = dec_dammit(mv, texts, case)
             keys = ("text", "orig", "flag", "declared", "tried", "markup", "sniffed", "cands")
@@ -1594,6 +1605,13 @@ def run(ctx):
         run_cases(ctx, random_cases(ctx, n), "random_documents")
         run_cases(ctx, str_cases(ctx, 3000 if ctx.thorough else 300), "str_input", detector=False)
         run_cases(ctx, malformed_cases(ctx, 12000 if ctx.thorough else 1200), "malformed")
+        # concrete codecs (Model/Codecs.v): nothing recorded per case
+        cd.sweeps(ctx, encode=False)
+        cd.dammit_cases(ctx)
+    ctx.extra_cov["concrete_codecs"] = ("ascii, iso-8859-1, windows-1252, utf-8, utf-16-le/be, utf-32-le/be decoders defined in "
+                                        "Coq and compared with bytes.decode (strict / replace) on all 256 single bytes, on "
+                                        "adversarial and random byte strings, and end to end through UnicodeDammit / "
+                                        "BeautifulSoup with no recorded codec result (counts: cd_*)")
     ctx.extra_cov["exhaustive"] = True
     ctx.extra_cov["exhaustive_scope"] = ("strip_byte_order_mark on all byte strings <=%d over 7 bytes; candidate grid "
                                          "(known<=2 x user<=1 x 6 exclusions x 9 documents); UnicodeDammit/constructor grid x 3 bodies"
@@ -1604,6 +1622,8 @@ def run(ctx):
 def replay(ctx, data):
     f = (data.get("failure") or {})
     cj = f.get("case") or ((data.get("disagreements") or [{}])[0].get("case")) or {}
+    if cd.replay(cj):
+        return 1
     if cj.get("history"):
         h = cj["history"]
         shared = {k: list(v) for k, v in h["shared_lists"].items()}
